@@ -15,7 +15,7 @@ RULE = ('1500*scale (thorough 20000) seeded histories of 1..30 (thorough 1..60) 
         '(1/2), bound methods of host objects fetched anew for every on/once/off (1/4), functools.wraps-decorated versions of '
         'the callback before them (1/4); with probability 0.4 the context is a mapping bound while empty and filled afterwards '
         '(latectx). 4 fixed histories (re-entrant once, off by callback of a once-listener, off of one of two callbacks, '
-        'subscribe/unsubscribe during delivery) in the four variants plain / bound / wrapped / latectx. Thorough adds every '
+        'subscribe/unsubscribe during delivery) in the five variants plain / bound / wrapped / latectx / rets (in 40% of the seeded histories, and in the `rets` variants, the callbacks RETURN something - True, a label, a count, the emitter itself, a list, 0, None in rotation - which delivery must ignore). Thorough adds every '
         'history of length <= 4 with an emit over 16 operations (2 names x 2 callbacks) for three body assignments (length 1: '
         'empty bodies only), depth 2, bare Emitter. Observed: the log of calls (callback, argument, context, name, depth) and, for '
         'the final subscriptions, two probe emits per name with the bodies switched off. Every history is compared with the '
@@ -70,6 +70,7 @@ def run_real(c, make):
     calls = [0]
     cbs = []
     late = bool(c.get('latectx'))
+    rets = bool(c.get('rets'))
 
     def do(op):
         k = op[0]
@@ -102,6 +103,9 @@ def run_real(c, make):
                         do(op)
                 finally:
                     depth[0] -= 1
+            if rets:
+                # what a listener returns is nobody's business: a count, a label, a flag, the emitter itself
+                return [True, 'handled', i + 1, e, [name], 0, None][(i + calls[0]) % 7]
         return cb
     cbody = c['bodies']
     cbs = [mk(i) for i in range(len(cbody))]
@@ -247,7 +251,7 @@ def gen_case(rng, maxlen):
         bodies.append([gen_op(rng, names, ncb) for _ in range(k)])
     ops = [gen_op(rng, names, ncb) for _ in range(rng.randrange(1, maxlen + 1))]
     return {'kind': 'script', 'on': rng.choice(['emitter', 'emitter', 'parser']), 'fuel': fuel,
-            'flavour': rng.choice(['function', 'function', 'bound', 'wrapped']), 'latectx': rng.random() < 0.4,
+            'flavour': rng.choice(['function', 'function', 'bound', 'wrapped']), 'latectx': rng.random() < 0.4, 'rets': rng.random() < 0.4,
             'names': names, 'bodies': bodies, 'ops': ops}
 
 
@@ -270,7 +274,7 @@ CORE = [
 def cases(rng, ctx):
     thorough = ctx['tier'] == 'thorough'
     out = [dict(c) for c in CORE] + [dict(c, flavour='bound') for c in CORE] + [dict(c, flavour='wrapped') for c in CORE] + \
-        [dict(c, latectx=True) for c in CORE]
+        [dict(c, latectx=True) for c in CORE] + [dict(c, rets=True) for c in CORE]
     n = (20000 if thorough else 1500) * ctx['scale']
     maxlen = 60 if thorough else 30
     for _ in range(n):
